@@ -294,9 +294,18 @@ def main():
                             a1 = par.block_distributed_array(arr)
                             a2 = par.block_distributed_array(
                                 arr, return_index=True)
+                            # arrays with trailing dimensions are shared
+                            # along their first axis
+                            arr2 = numpy.arange(300, 300 + 3 * (stop - start)
+                                                ).reshape(stop - start, 3)
+                            b1 = par.block_distributed_array(arr2)
+                            b2 = par.block_distributed_array(
+                                arr2, return_index=True)
+                            b1 = [int(x[0]) for x in b1]
+                            b2 = [(int(i), int(x[0])) for i, x in b2]
                         finally:
                             par.close_parallel_region()
-                        return r, l1, l2, list(a1), a2
+                        return r, l1, l2, list(a1), a2, b1, b2
                     out = None
                     with ck.guarded("iterators-cover-once", "iterator",
                                     dict(size=size, start=start, stop=stop,
@@ -318,6 +327,9 @@ def main():
                               list(range(200, 200 + n))),
                     "array-indexed": ([(int(i), int(v)) for i, v in cat(4)],
                                       [(i, 200 + i) for i in range(n)]),
+                    "array-2d": (cat(5), [300 + 3 * i for i in range(n)]),
+                    "array-2d-indexed": (cat(6), [(i, 300 + 3 * i)
+                                                   for i in range(n)]),
                 }
                 for name, (got, want) in checks.items():
                     ck.case("iterators-cover-once", (name, size, start, stop),
